@@ -1,4 +1,6 @@
 """C14 — decision trees: fit-time and predict-time routing agree; limits are tested before a split is created."""
+import re
+
 from .core import RuleResult
 from .facts import fn_key, fn_loc, walk, strip, peel_refs, pat_bindings, Render
 from .sym import Tracer, Term, Cmp, k, as_term, as_poly, walk_terms, Poly
@@ -219,5 +221,194 @@ def rule_limits(ctx):
     return res.finish(7)
 
 
+WEIGHT_SOURCES = {"label_frequencies_with_mask", "weight_for", "weights", "label_frequencies"}
+
+
+def local_deps(fn):
+    """flow-insensitive dependency sets: local -> names of the calls its value is computed from (transitively)"""
+    c = fn["crate"]
+    deps = {}
+
+    def deps_of(e):
+        out = set()
+        for x in walk(e):
+            if x.get("k") == "MethodCall":
+                out.add(x["name"])
+            elif x.get("k") == "Call":
+                d = c.dfn(strip(x["f"]).get("def")) if strip(x["f"]).get("k") == "Path" else None
+                if d:
+                    out.add(d["name"])
+            elif x.get("k") == "Path" and "local" in x:
+                out |= deps.get(x["local"], set())
+            elif x.get("k") == "Field":
+                out.add("field:" + x["name"])
+        return out
+    for _ in range(4):
+        for x in walk(fn["body"]):
+            kk = x.get("k")
+            if kk == "LetStmt" and x.get("init") is not None:
+                d = deps_of(x["init"])
+                for b in pat_bindings(x["pat"]):
+                    deps[b["local"]] = deps.get(b["local"], set()) | d
+            elif kk in ("Assign", "AssignOp"):
+                t = peel_refs(x["l"])
+                if t.get("k") == "Path" and "local" in t:
+                    deps[t["local"]] = deps.get(t["local"], set()) | deps_of(x["r"])
+            elif kk == "Match":
+                d = deps_of(x["scrut"])
+                for a in x["arms"]:
+                    for b in pat_bindings(a["pat"]):
+                        deps[b["local"]] = deps.get(b["local"], set()) | d
+    return deps, deps_of
+
+
+def is_zero_lit(n):
+    n = peel_refs(n)
+    if n.get("k") == "Lit":
+        try:
+            return float(re.sub(r"(_?[fiu](32|64|size))$", "", n["v"]).replace("_", "")) == 0.0
+        except ValueError:
+            return False
+    return False
+
+
+def rule_weights(ctx):
+    """'leaves at least min_weight_leaf of training weight on each side' and 'reports the actual (weighted) decrease':
+    the running side weights and the fraction that mixes the two child impurities are sums of sample weights."""
+    res = RuleResult("R-C14-weights", "side-weight accumulators start from zero or from a total of sample weights, and a weight fraction divides by a total of sample weights (not by a sample count)")
+    F = ctx.facts()
+    for fn in find_fn(res, F, "fit", "TreeNode"):
+        c = fn["crate"]
+        r = Render(c)
+        key = fn_key(fn)
+        deps, deps_of = local_deps(fn)
+        inits = {}
+        for x in walk(fn["body"]):
+            if x.get("k") == "LetStmt" and x.get("init") is not None and x["pat"].get("k") == "Bind":
+                inits[x["pat"]["local"]] = x
+        accs = {}
+        for x in walk(fn["body"]):
+            if x.get("k") == "AssignOp" and x["op"] in ("+", "-"):
+                t = peel_refs(x["l"])
+                if t.get("k") == "Path" and "local" in t and deps_of(x["r"]) & WEIGHT_SOURCES:
+                    accs.setdefault(t["local"], (t.get("name"), x))
+        for loc, (name, node) in sorted(accs.items(), key=lambda z: z[1][0] or ""):
+            res.instance("%s : accumulator `%s`" % (key, name))
+            let = inits.get(loc)
+            if let is None:
+                res.violate("%s : accumulator-start:%s" % (key, name), "cannot find the initial value of the weight accumulator `%s` (fail closed)" % name, fn_loc(fn, node["ln"]))
+                continue
+            init = let["init"]
+            # the initial value itself (not later updates): dependencies of the initialiser through other locals' initialisers only
+            seen, todo, srcs = set(), [init], set()
+            zero = is_zero_lit(init)
+            while todo:
+                e = todo.pop()
+                for y in walk(e):
+                    if y.get("k") == "MethodCall":
+                        srcs.add(y["name"])
+                    elif y.get("k") == "Call":
+                        d = c.dfn(strip(y["f"]).get("def")) if strip(y["f"]).get("k") == "Path" else None
+                        if d:
+                            srcs.add(d["name"])
+                    elif y.get("k") == "Path" and "local" in y and y["local"] not in seen:
+                        seen.add(y["local"])
+                        if y["local"] in inits:
+                            todo.append(inits[y["local"]]["init"])
+                        else:
+                            srcs |= deps.get(y["local"], set())
+            if zero or srcs & WEIGHT_SOURCES:
+                res.ok()
+                res.sample({"accumulator": name, "starts_from": "0" if zero else sorted(srcs & WEIGHT_SOURCES)})
+            else:
+                res.violate("%s : accumulator-start:%s" % (key, name), "`%s` is updated by sample weights but starts from `%s`, which is not derived from the sample weights (a sample count is not a weight total when weights are present)" % (name, r.e(init)[:60]), fn_loc(fn, let["ln"]))
+        nfrac = 0
+        for x in walk(fn["body"]):
+            if x.get("k") == "Binary" and x["op"] == "/" and deps_of(x["l"]) & WEIGHT_SOURCES:
+                den = peel_refs(x["r"])
+                if den.get("k") == "Lit" or (den.get("k") == "Call" and (c.dfn(strip(den["f"]).get("def")) or {}).get("name") in ("cast", "from")):
+                    continue
+                nfrac += 1
+                res.instance("%s : weight fraction `%s`" % (key, r.e(x)[:50]))
+                # divisor through initialisers only
+                seen, todo, srcs = set(), [x["r"]], set()
+                while todo:
+                    e = todo.pop()
+                    for y in walk(e):
+                        if y.get("k") == "MethodCall":
+                            srcs.add(y["name"])
+                        elif y.get("k") == "Call":
+                            d = c.dfn(strip(y["f"]).get("def")) if strip(y["f"]).get("k") == "Path" else None
+                            if d:
+                                srcs.add(d["name"])
+                        elif y.get("k") == "Path" and "local" in y and y["local"] not in seen:
+                            seen.add(y["local"])
+                            if y["local"] in inits:
+                                todo.append(inits[y["local"]]["init"])
+                            else:
+                                srcs |= deps.get(y["local"], set())
+                if srcs & WEIGHT_SOURCES:
+                    res.ok()
+                else:
+                    res.violate("%s : weight-fraction-divisor" % key, "the weight fraction `%s` divides a sum of sample weights by `%s`, which is not derived from the sample weights: the mixed impurity (and the reported decrease) is wrong for weighted data" % (r.e(x)[:60], r.e(x["r"])[:40]), fn_loc(fn, x["ln"]))
+        if not accs:
+            res.missing_anchor("weight accumulators of the split sweep in TreeNode::fit")
+        if not nfrac:
+            res.missing_anchor("the weight fraction mixing the child impurities in TreeNode::fit")
+    return res.finish(3)
+
+
+RAW_BUFFER = {"as_slice_memory_order", "as_slice_memory_order_mut", "as_ptr", "as_mut_ptr", "into_raw_vec", "into_raw_vec_and_offset", "uget", "uget_mut", "as_standard_layout_unchecked"}
+LAYOUT_TESTS = {"is_standard_layout", "strides", "stride_of"}
+AXIS_ACCESS = {"index_axis", "column", "row", "rows", "columns", "axis_iter", "outer_iter", "genrows", "gencolumns", "select", "slice", "index_axis_move"}
+
+
+def rule_layout(ctx):
+    """The presorted per-feature index and the routing read the records through axis-aware accessors, so the tree
+    does not depend on the memory layout of the records (column-major / transposed / sliced inputs)."""
+    res = RuleResult("R-C14-layout", "linfa-trees reads the record matrix only through axis-aware accessors; raw memory-order buffer access needs a layout test")
+    F = ctx.facts()
+    fns = [f for f in F.all_fns() if f["d"]["krate"] == "linfa_trees"]
+
+    def raw_sites(fs):
+        out = []
+        for f in fs:
+            c = f["crate"]
+            tests = any(x.get("k") == "MethodCall" and x["name"] in LAYOUT_TESTS for x in walk(f["body"]))
+            for x in walk(f["body"]):
+                if x.get("k") == "MethodCall" and x["name"] in RAW_BUFFER:
+                    d = c.dfn(x.get("def"))
+                    rt = c.ty(x["recv"].get("at", x["recv"].get("t"))) or ""
+                    if d is not None and d["krate"] == "ndarray" and ("Dim<[usize; 2]>" in rt or "Ix2" in rt or "D" in rt):
+                        out.append((f, x, tests))
+        return out
+    # positive control: the matcher must see the raw-buffer accesses of the dataset code (split_with_ratio & co.)
+    control = raw_sites([f for f in F.all_fns() if f["d"]["krate"] == "linfa"])
+    res.instance("matcher control: %d raw-buffer accesses recognised in crate linfa" % len(control))
+    if control:
+        res.ok()
+    else:
+        res.violate("matcher-control", "the raw-buffer matcher recognises nothing in crate linfa, where into_raw_vec is known to be used (the rule would pass vacuously)", "src/dataset/impl_dataset.rs")
+    for f, x, tests in raw_sites(fns):
+        key = fn_key(f)
+        res.instance("%s : %s" % (key, x["name"]))
+        if tests:
+            res.ok()
+        else:
+            res.violate("%s : raw-buffer:%s" % (key, x["name"]), "`%s` hands out the records in memory order without a layout test: positional arithmetic on it reads the wrong cells for column-major, transposed or sliced records" % x["name"], fn_loc(f, x["ln"]))
+    for fn in find_fn(res, F, "of_array_column", "SortedIndex"):
+        key = fn_key(fn)
+        xs = [p_ for p_ in fn["params"] if p_.get("k") == "Bind" and p_["name"] != "self"]
+        acc = [y for y in walk(fn["body"]) if y.get("k") == "MethodCall" and y["name"] in AXIS_ACCESS and peel_refs(y["recv"]).get("local") == xs[0]["local"]]
+        idx = [y for y in walk(fn["body"]) if y.get("k") == "Index" and peel_refs(y["e"]).get("local") == xs[0]["local"]]
+        res.instance("%s : feature column read through %s" % (key, sorted(set(y["name"] for y in acc)) or ("indexing" if idx else "?")))
+        uses_feature = any(any(z.get("k") == "Path" and z.get("local") == xs[1]["local"] for z in walk(y)) for y in acc + idx) if len(xs) > 1 else False
+        if (acc or idx) and uses_feature:
+            res.ok()
+        else:
+            res.violate("%s : column-access" % key, "the feature column is not read through an axis-aware accessor of the records indexed by the feature index (fail closed)", fn_loc(fn))
+    return res.finish(2)
+
+
 def rules(tier):
-    return [rule_route, rule_limits]
+    return [rule_route, rule_limits, rule_weights, rule_layout]
